@@ -271,8 +271,8 @@ never in a wrapped value -/
 theorem roll_unsigned_np_rejects_cleanly (t : IdxTy) (shape : List Int) (steps : List (Int × Int)) (n sh : Int)
     (rest : List Int) (c : Int) (hu : t.signed = false) :
     roll t .npInt64 shape steps n (sh :: rest) c = .error .value := by
-  have hstep : rollStep t .npInt64 c sh n = .error .value := by
-    unfold rollStep rollAdd iaddNp promote
+  have hstep : rollStepW t .npInt64 c sh n = .error .value := by
+    unfold rollStepW rollAdd iaddNp promote
     simp only [hu, i64]
     by_cases hb : t.bits < 64
     · simp [hb, bind, Except.bind]
